@@ -22,6 +22,7 @@ EXHAUSTIVE_CLAIM = True
 ALPHABET = ['"', '\\', '$', '`', ',', ':', ';', '\n', '\r', '\t', '\b', '\f', '\x00', '\x1f', '\x7f', u'\x80', u'\xe9',
             u'\u2028', u'\ufeff', u'\uffff', u'\U0001F600', ' ', '1', 'n', 'N', 's', 'x', '>', '<', '[', '{', '(', '@', 'u']
 SCALAR_POS = ['str', 'uri', 'refdis', 'xstr']
+XSTR_TYPES = ['Foo', 'Hex', 'B64', 'Span']     # 'Hex'/'B64' are NOT the hex/b64 codecs: opaque text like any other type
 BATCH = 48
 
 
@@ -32,7 +33,7 @@ def scalar_value(pos, p):
         return ['uri', p]
     if pos == 'refdis':
         return ['ref', 'r1', p]
-    return ['xstr', 'Foo', p]
+    return ['xstr', XSTR_TYPES[sum(ord(c) for c in p) % len(XSTR_TYPES)], p]
 
 
 def check_scalar_payload(p, fmt, ver='3.0'):
@@ -40,7 +41,7 @@ def check_scalar_payload(p, fmt, ver='3.0'):
     import hszinc
     mode = hszinc.MODE_ZINC if fmt == 'zinc' else hszinc.MODE_JSON
     for pos in SCALAR_POS:
-        if pos == 'xstr' and ver != '3.0':
+        if pos.startswith('xstr') and ver != '3.0':
             continue
         case = {'kind': 'scalar', 'payload': p, 'pos': pos, 'fmt': fmt, 'ver': ver}
         m = scalar_value(pos, p)
